@@ -297,7 +297,7 @@ func TestC01Exhaustive(t *testing.T) {
 		go func() {
 			for j := range jobs {
 				c := C01Ex{Pats: patStrings(j.ps)}
-				if d := c01ExCheck(c, origins, rec); d != nil {
+				if d := safely(func() *Disc { return c01ExCheck(c, origins, rec) }); d != nil {
 					select {
 					case fail <- struct {
 						c C01Ex
